@@ -5,6 +5,7 @@ import (
 	"encoding/binary"
 	"encoding/hex"
 	"errors"
+	"fmt"
 
 	"github.com/jcmturner/gokrb5/v8/crypto/etype"
 	"github.com/jcmturner/gokrb5/v8/iana/etypeID"
@@ -13,6 +14,9 @@ import (
 
 const (
 	s2kParamsZero = 32768
+	// maxIterations is an implementation limit on the PBKDF2 iteration count accepted in string-to-key
+	// parameters, the same limit MIT krb5 applies (MAX_ITERATION_COUNT). The default is 32768.
+	maxIterations = 0x1000000
 )
 
 // DeriveRandom for key derivation as defined in RFC 8009
@@ -68,6 +72,11 @@ func StringToKey(secret, salt, s2kparams string, e etype.EType) ([]byte, error) 
 	i, err := S2KparamsToItertions(s2kparams)
 	if err != nil {
 		return nil, err
+	}
+	// The parameters are chosen by the peer (the KDC's PA-ETYPE-INFO2): bound the work they can demand.
+	// (A count that does not fit an int shows up as a negative number on 32-bit platforms.)
+	if i <= 0 || i >= maxIterations {
+		return nil, fmt.Errorf("s2kparams iteration count %d is not a positive number below the maximum of %d accepted", i, maxIterations)
 	}
 	return StringToKeyIter(secret, salt, i, e)
 }
